@@ -3,6 +3,7 @@
   computes, one line per input line, in the same canonical text the Rust harness prints for the real code.
 -/
 import Driver.Codec
+import Proofs.RT.Top
 set_option autoImplicit false
 
 namespace Narsese.Driver
@@ -272,6 +273,11 @@ def exec (op fmt payload : String) : Except String String := do
     pure (match Peg.reference Gen.readmeGrammar s with
       | some v => s!"ok {showLNarsese v}"
       | none => "err")
+  | "c01hyp" =>
+    -- model-only: do the hypotheses of the C01 round-trip theorem (`Props/C01c.lean`) hold for this value?
+    let F ← efmtOf fmt
+    let v ← runRd rdNarsese payload
+    pure s!"h {bit (wfN F v)} {bit (topN F v)} ok {showNarsese .canon v}"
   | "numok" =>
     -- is this (bits, text) pair what the model requires of a printed number?
     let x ← runRd rdNum payload
